@@ -320,6 +320,13 @@ def run(chk: Check) -> None:
     hdocs = [dict(d, markers=True) for d in docs if d["edges"] and all(e["from"] == "H" for e in d["edges"]) and {e["to"] for e in d["edges"]} <= {"FooBar", "Foo_Bar"}]
     chk.require(len(hdocs) >= 60, "colliding-schema-name family too small")
     judge(chk, observe_import(chk, hdocs, "imp[namecollide]"), "import[namecollide]")
+    # how an object schema is WRITTEN: without `type: object` (legal when it has properties), and with the at-least-one-of idiom
+    # (a constraint-only anyOf) next to its properties - the declared properties are the same fields either way
+    docs = gen_graphs(chk, ["A", "B"], ["ref", "arr", "inline", "map"] if not thorough else ["ref", "arr", "inline", "map", "oneOf", "allOf"], 2, req=(False, True) if thorough else (False,))
+    for style in ("typeless", "atleast"):
+        sdocs = [dict(d, style=style) for d in docs]
+        judge(chk, observe_ir(chk, sdocs, f"ir[{style}]"), f"ir[{style}]")
+        judge(chk, observe_import(chk, sdocs[:: (1 if thorough else 3)], f"imp[{style}]"), f"import[{style}]")
     # thresholds on NAME LENGTH: two long schema names with a long common prefix (the usual ...Request / ...Response pair), each with an inline
     # object under the SAME property key - whatever the generator does to keep derived names short must keep them distinct
     stem = "CustomerOrderFulfilmentNotificationSettingsBulkUpdateOperation"   # 62 characters
